@@ -58,8 +58,8 @@ func (a *ecoAdapter[V, VR]) Contains(r, v any) bool {
 	simrt.ResetOpSteps()
 	return r.(VR).Contains(v.(V))
 }
-func (a *ecoAdapter[V, VR]) VString(v any) string   { return v.(V).String() }
-func (a *ecoAdapter[V, VR]) RString(r any) string   { return r.(VR).String() }
+func (a *ecoAdapter[V, VR]) VString(v any) string { return v.(V).String() }
+func (a *ecoAdapter[V, VR]) RString(r any) string { return r.(VR).String() }
 func (a *ecoAdapter[V, VR]) SortCopy(vs []any) []any {
 	tv := make([]V, len(vs))
 	for i, v := range vs {
